@@ -5,6 +5,7 @@ package websocket
 import (
 	"bytes"
 	"fmt"
+	"io"
 	"testing"
 
 	"verifharness/lib/mon"
@@ -174,4 +175,110 @@ func TestVerif_C14_CloseReasons(t *testing.T) {
 	}
 	m.Require("invalid_close_rejected_with_1002", 1000)
 	m.Require("valid_close_reported", 200)
+}
+
+// A stream cut inside a frame or inside a fragmented message must end in an error, never in a short
+// message — also when the transport hands over the last bytes TOGETHER with io.EOF in one Read
+// (n > 0, err == io.EOF), and whatever the read-buffer size and the application's read size.
+type verifC14EOFConn struct {
+	verifC14Conn
+	data []byte
+	off  int
+	seg  int
+}
+
+func (c *verifC14EOFConn) Read(p []byte) (int, error) {
+	if c.off >= len(c.data) {
+		return 0, io.EOF
+	}
+	n := len(p)
+	if c.seg > 0 && n > c.seg {
+		n = c.seg
+	}
+	if n > len(c.data)-c.off {
+		n = len(c.data) - c.off
+	}
+	copy(p, c.data[c.off:c.off+n])
+	c.off += n
+	if c.off >= len(c.data) {
+		return n, io.EOF // last bytes and EOF in the same call
+	}
+	return n, nil
+}
+
+func TestVerif_C14_CutWithData(t *testing.T) {
+	m := mon.New("C14", "cutwithdata")
+	defer m.Finish(t)
+	m.Rule("cutwithdata: role x read buffer {125(min),256,4096} x transport read size {whole,1,7,64} x application read {ReadMessage, NextReader with " +
+		"1/97/8192-byte reads} x traces {one non-final fragment of n bytes, two non-final fragments, a fragment + ping, a final frame cut k bytes short} " +
+		"with n in {0,1,124,125,126,200,300,5000}; the transport returns the last bytes together with io.EOF; oracle: no message is delivered " +
+		"(ReadMessage error != nil; a NextReader reader never reports io.EOF), because the message never finished; distinct = all combinations")
+	m.Exhaustive(true)
+	for _, role := range []refws.Role{refws.RoleServer, refws.RoleClient} {
+		masked := role == refws.RoleServer
+		mk := func(f refws.Frame) refws.Frame { f.Masked = masked; f.Key = [4]byte{3, 1, 4, 1}; return f }
+		for _, n := range []int{0, 1, 124, 125, 126, 200, 300, 5000} {
+			body := bytes.Repeat([]byte{'x'}, n)
+			traces := map[string][]byte{}
+			w, _ := refws.Gen([]refws.Frame{mk(refws.Frame{Opcode: 2, Payload: body})})
+			traces["one-nonfinal"] = w
+			w, _ = refws.Gen([]refws.Frame{mk(refws.Frame{Opcode: 1, Payload: body}), mk(refws.Frame{Opcode: 0, Payload: body})})
+			traces["two-nonfinal"] = w
+			w, _ = refws.Gen([]refws.Frame{mk(refws.Frame{Opcode: 2, Payload: body}), mk(refws.Frame{Fin: true, Opcode: 9, Payload: []byte("p")})})
+			traces["nonfinal+ping"] = w
+			if n > 0 {
+				w, _ = refws.Gen([]refws.Frame{mk(refws.Frame{Fin: true, Opcode: 2, Payload: body})})
+				traces["final-cut-1-short"] = w[:len(w)-1]
+				w2, _ := refws.Gen([]refws.Frame{mk(refws.Frame{Opcode: 2, Payload: body}), mk(refws.Frame{Fin: true, Opcode: 0, Payload: body})})
+				traces["second-fragment-cut-1-short"] = w2[:len(w2)-1]
+			}
+			for tn, wire := range traces {
+				for _, rb := range []int{125, 256, 4096} {
+					for _, seg := range []int{0, 1, 7, 64} {
+						for _, app := range []int{0, 1, 97, 8192} {
+							m.Case()
+							m.Classf("%s/%s/n%d/rb%d/seg%d/app%d", role, tn, n, rb, seg, app)
+							nc := &verifC14EOFConn{data: wire, seg: seg}
+							c := newConn(nc, role == refws.RoleServer, rb, 256)
+							rep := map[string]interface{}{"role": role.String(), "trace": tn, "n": n, "read_buffer": rb, "transport_read": seg, "app_read": app}
+							m.Guard("ws.cutwithdata", wire, func() {
+								if app == 0 {
+									mt, p, err := c.ReadMessage()
+									if err == nil {
+										m.Violationf("c14:short-message-delivered:data+eof", rep, "ReadMessage returned type %d, %d bytes, nil error for a message that never finished (stream ended after %d bytes)", mt, len(p), len(wire))
+										return
+									}
+									m.Count("cut_detected", 1)
+									return
+								}
+								_, r, err := c.NextReader()
+								if err != nil {
+									m.Count("cut_detected", 1)
+									return
+								}
+								buf := make([]byte, app)
+								total := 0
+								for {
+									k, e := r.Read(buf)
+									total += k
+									if e == io.EOF {
+										m.Violationf("c14:short-message-delivered:data+eof", rep, "the message reader reported a clean end of message (io.EOF) after %d bytes although the message never finished", total)
+										return
+									}
+									if e != nil {
+										m.Count("cut_detected", 1)
+										return
+									}
+									if total > 100000 {
+										return
+									}
+								}
+							})
+						}
+					}
+				}
+			}
+		}
+	}
+	m.Require("cut_detected", 1000)
 }
